@@ -422,7 +422,17 @@ fn gen_module(id: usize, sh: &Shape) -> String {
             s += &format!("            r.checks += 1; if t.f{i} != sentinel.f{i} {{ r.bad(id, format!(\"t={{time}}: un-animated f{i} changed to {{:?}}\", t.f{i})); }}\n");
         }
     }
-    s += "        }\n    }\n}\n";
+    s += "        }\n";
+    // (5) a stepped animation of the first animated field: 40 holds, each written as two keyframes, neighbouring
+    // holds meeting in two tied keyframes; all end-of-hold keyframes are added before all start-of-hold ones
+    let f = anim[0];
+    let fty = ty(f);
+    s += &format!("        let mut b = {w}::timeline().duration_seconds(1.0);\n");
+    s += &format!("        for i in 0..40u32 {{ b = b.keyframe({w}::keyframe((i + 1) as f32 / 40.0).f{f}(((i * 7) % 50) as {fty})); }}\n");
+    s += &format!("        for i in 0..40u32 {{ b = b.keyframe({w}::keyframe(i as f32 / 40.0).f{f}(((i * 7) % 50) as {fty})); }}\n");
+    s += "        let tl = b.build();\n";
+    s += &format!("        for i in 0..40u32 {{ let mut t = sentinel.clone(); tl.update(&mut t, (i as f32 + 0.5) / 40.0); r.checks += 1; if ((t.f{f} as f64) - ((i * 7) % 50) as f64).abs() > 1e-3 {{ r.bad(id, format!(\"stepped: inside hold {{i}} f{f} = {{:?}}, expected {{}}\", t.f{f}, (i * 7) % 50)); }} }}\n");
+    s += "    }\n}\n";
     s
 }
 
@@ -462,7 +472,7 @@ fn layer_b(sel: &[Shape], sink: &mut VSink) -> (u64, u64) {
             if let Some(rest) = l.strip_prefix("MISMATCH ") {
                 let (id, what) = rest.split_once(' ').unwrap_or((rest, ""));
                 let i: usize = id.parse().unwrap_or(0);
-                let clause = if what.starts_with("setter") { "setter-presence" } else if what.starts_with("keyframe_from") { "keyframe_from" } else if what.starts_with("metadata") { "metadata" } else if what.contains("un-animated") { "unanimated-field-touched" } else { "evaluation" };
+                let clause = if what.starts_with("setter") { "setter-presence" } else if what.starts_with("keyframe_from") { "keyframe_from" } else if what.starts_with("metadata") { "metadata" } else if what.contains("un-animated") { "unanimated-field-touched" } else if what.starts_with("stepped") { "stepped-animation" } else { "evaluation" };
                 sink.add(&format!("compiled:{clause}"), 10 + i as u64, || (format!("`#[derive(Animate)] {}`: {what}", sel[i].decl()), sel[i].to_json()));
             } else if let Some(n) = l.strip_prefix("DONE ") {
                 checks += n.parse::<u64>().unwrap_or(0);
@@ -599,7 +609,7 @@ pub fn run(run: Run) -> ! {
     cov.insert("programs_compiled".into(), json!(compiled));
     cov.insert("evaluations".into(), json!(shapes_a + checks));
     cov.insert("distinct_nontrivial".into(), json!(shapes_a));
-    cov.insert("rule".into(), json!(format!("Layer A (in-process expansion of the real derive source, parsed as a syn::File): ALL struct shapes with {} fields over types {{f32,f64,u8,i16,i32,u32}} x every #[animate] subset x struct visibility {{private,pub,pub(crate)}} (field visibilities rotated) x {{local, #[animate(remote = ...)] proxy (bare identifier or module-qualified path)}}, with doc comments / #[allow] / #[cfg] attributes before or after the #[animate] marker and on the struct (rotated over all shapes, and exhaustively for 1..2 fields), plus 48 WIDE structs (8, 12, 20, 33 fields x markers none/all/even/first/last/one-in-the-middle x local/remote; three of them compiled in quick, all in thorough); oracle: animated field set = attributed fields, or all if none is attributed; the keyframe builder has exactly one public setter per animated field with the field's type, keyframe data and t_<field> sub-timelines likewise, keyframe_from / values_from / update / start_with touch exactly the animated fields and are wired name-to-name, Target is the (remote) type, visibility copied, accessors forwarded to the time scale. Layer B: {} shapes compiled with the real derive: setter presence observed at run time (inherent-vs-trait method resolution), keyframe_from copies exactly the animated fields, un-animated fields keep sentinels, every animated field interpolates per a linear reference on a 41-point time grid (in every other shape each (position, field) is its own keyframe, so keyframes share positions) (delay, two cycles, after the end), metadata accessors return the configured values ({} run-time checks)", if thorough { "1..5 (6 types) and 6 (3 types)" } else { "1..4" }, compiled, checks)));
+    cov.insert("rule".into(), json!(format!("Layer A (in-process expansion of the real derive source, parsed as a syn::File): ALL struct shapes with {} fields over types {{f32,f64,u8,i16,i32,u32}} x every #[animate] subset x struct visibility {{private,pub,pub(crate)}} (field visibilities rotated) x {{local, #[animate(remote = ...)] proxy (bare identifier or module-qualified path)}}, with doc comments / #[allow] / #[cfg] attributes before or after the #[animate] marker and on the struct (rotated over all shapes, and exhaustively for 1..2 fields), plus 48 WIDE structs (8, 12, 20, 33 fields x markers none/all/even/first/last/one-in-the-middle x local/remote; three of them compiled in quick, all in thorough); oracle: animated field set = attributed fields, or all if none is attributed; the keyframe builder has exactly one public setter per animated field with the field's type, keyframe data and t_<field> sub-timelines likewise, keyframe_from / values_from / update / start_with touch exactly the animated fields and are wired name-to-name, Target is the (remote) type, visibility copied, accessors forwarded to the time scale. Layer B: {} shapes compiled with the real derive: setter presence observed at run time (inherent-vs-trait method resolution), keyframe_from copies exactly the animated fields, un-animated fields keep sentinels, every animated field interpolates per a linear reference on a 41-point time grid (in every other shape each (position, field) is its own keyframe, so keyframes share positions) (delay, two cycles, after the end), metadata accessors return the configured values, and a stepped animation of the first animated field (40 holds = 80 keyframes with tied positions, end-of-hold keyframes added before start-of-hold ones) shows each hold's value inside the hold ({} run-time checks)", if thorough { "1..5 (6 types) and 6 (3 types)" } else { "1..4" }, compiled, checks)));
     cov.insert("exhaustive".into(), json!(true));
     cov.insert("compiled_runtime_checks".into(), json!(checks));
     cov.insert("samples".into(), json!(acc.samples));
